@@ -67,6 +67,7 @@ def record_programs(seed, n_programs):
     import physt
     rng = random.Random(seed)
     programs = []
+    raised = []
     skipped = 0
     for p in range(n_programs):
         method = rng.choice(METHODS)
@@ -94,7 +95,6 @@ def record_programs(seed, n_programs):
             continue
         steps = [("construct", cdata, wts or [1] * len(cdata), None, snapshot(h))]
         edges = np.asarray(h.bins, dtype=float)
-        ok = True
         for _ in range(rng.randrange(0, 4)):
             pool = list(data) + edges.ravel().tolist() + [math.nextafter(float(e), math.inf) for e in edges.ravel()[:2]] + \
                 [min(data) - 1.0, max(data) + 1.0]
@@ -103,8 +103,9 @@ def record_programs(seed, n_programs):
                 w = rng.choice([1, 2])
                 try:
                     r = h.fill(v, float(w)) if h.dtype.kind == "f" else h.fill(v, w)
-                except Exception:
-                    ok = False      # e.g. known finding: gap on an integer histogram
+                except Exception as ex:     # fill never refuses a finite value
+                    raised.append({"program": p, "method": method, "call": "fill", "values": [repr(v)], "weights": [w], "bins": edges.tolist(),
+                                   "raised": f"{type(ex).__name__}: {ex}"})
                     break
                 steps.append(("fill", [v], [w], r, snapshot(h)))
             else:
@@ -112,12 +113,13 @@ def record_programs(seed, n_programs):
                 ws = [rng.choice([1, 2]) for _ in vs]
                 try:
                     h.fill_n(np.array(vs, dtype=float), weights=np.array(ws, dtype=float if h.dtype.kind == "f" else np.int64))
-                except Exception:
-                    ok = False
+                except Exception as ex:     # nor does fill_n
+                    raised.append({"program": p, "method": method, "call": "fill_n", "values": [repr(v) for v in vs], "weights": ws, "bins": edges.tolist(),
+                                   "raised": f"{type(ex).__name__}: {ex}"})
                     break
                 steps.append(("filln", vs, ws, None, snapshot(h)))
         programs.append({"method": method, "bins": edges.tolist(), "keep": keep, "weighted": weighted, "steps": steps, "kw": {k: repr(v) for k, v in kw.items()}})
-    return programs, skipped
+    return programs, skipped, raised
 
 
 def snapshot(h):
@@ -157,7 +159,10 @@ def abstract(programs):
 
 def run_part(ctx, tier, seed_offset=11):
     n_prog = 300 if tier == "quick" else 5000
-    programs, skipped = record_programs(ctx.seed + seed_offset, n_prog)
+    programs, skipped, raised = record_programs(ctx.seed + seed_offset, n_prog)
+    for r in raised[:5]:
+        ctx.add_violation({"property": ctx.prop, "spec": "TraceHist1D", "action": r["call"], "tag": f"T1/{r['call']}/raised", "fields": ["accepted"],
+                           "detail": {"raised": r["raised"]}, "call": r})
     events, meta = abstract(programs)
     sc = scratch_dir(ctx.prop + "T1")
     path = os.path.join(sc, "trace.ndjson")
